@@ -186,6 +186,7 @@ func (_this *Reader) ReadDate() compact_time.Time {
 	if err != nil {
 		_this.unexpectedError(err)
 	}
+	_this.validateTime(value)
 
 	return value
 }
@@ -195,6 +196,7 @@ func (_this *Reader) ReadTime() compact_time.Time {
 	if err != nil {
 		_this.unexpectedError(err)
 	}
+	_this.validateTime(value)
 
 	return value
 }
@@ -204,8 +206,30 @@ func (_this *Reader) ReadTimestamp() compact_time.Time {
 	if err != nil {
 		_this.unexpectedError(err)
 	}
+	_this.validateTime(value)
 
 	return value
+}
+
+// Times must be within the same bounds that the text format enforces, otherwise
+// a binary document could not be converted to text.
+func (_this *Reader) validateTime(value compact_time.Time) {
+	if value.IsZeroValue() {
+		return
+	}
+	if err := value.Validate(); err != nil {
+		_this.unexpectedError(err)
+	}
+	if value.Timezone.Type == compact_time.TimezoneTypeAreaLocation {
+		for i, ch := range []byte(value.Timezone.LongAreaLocation) {
+			isFirstChar := ch >= 'A' && ch <= 'Z'
+			isNextChar := isFirstChar || (ch >= 'a' && ch <= 'z') || (ch >= '0' && ch <= '9') ||
+				ch == '_' || ch == '-' || ch == '.' || ch == '/' || ch == '+'
+			if (i == 0 && !isFirstChar) || !isNextChar {
+				_this.errorf("%q: invalid area/location time zone", value.Timezone.LongAreaLocation)
+			}
+		}
+	}
 }
 
 func (_this *Reader) ReadArrayChunkHeader() (elementCount uint64, moreChunksFollow bool) {
